@@ -230,6 +230,15 @@ class Ctx:
                 return inner
         a = atom_of(s)
         ty = self.ty_of(s)
+        if t == "call" and s[1] and re.search(r"(std::cmp::(max|min)|std::cmp::Ord::(max|min)|core::cmp::(max|min))$", s[1]) and len(s[2]) == 2 and depth < 8:
+            # m = max(x, y): m >= x, m >= y ; m = min(x, y): x >= m, y >= m
+            me = Lin({a: 1})
+            sign = 1 if s[1].endswith("max") else -1
+            for arg in s[2]:
+                la = self.lin(arg, depth + 1)
+                self.extra.append((me.add(la, -1).scale(sign), ">="))
+            if all(all(x in self.nonneg for x in self.lin(arg, depth + 1).c) and self.lin(arg, depth + 1).k >= 0 for arg in s[2]):
+                self.nonneg.add(a)
         if ty in UNSIGNED:
             self.nonneg.add(a)
         if t == "cast" and s[1] in UNSIGNED:
